@@ -27,8 +27,9 @@ the `poll(1 s)` calls of the wait loop, termination signals arriving meanwhile, 
 and every state of the terminal:
 
 1. unless the environment never lets the wait loop end (the supplied answers run out: `blocked`), the system
-   calls of `dispose` are: those of its polls, then closing the signal handle, then `tcsetattr(saved)` as the
-   very last call; no `tcsetattr` with any other settings occurs;
+   calls of `dispose` are: signals switched off (handle closed, pending ones forgotten), those of its polls,
+   closing the signal handle, then `tcsetattr(saved)` as the very last call; no `tcsetattr` with any other
+   settings occurs;
 2. `saved` is what `tcgetattr` answered when the tty was opened, read BEFORE raw mode was set (`openTty`);
 3. if every `execute` succeeded and the queue was drained (all writes were accepted), the bytes handed to the tty
    before `tcsetattr` contain the complete closing sequence as one contiguous block, after everything queued
@@ -38,10 +39,10 @@ and every state of the terminal:
    for every capability set. -/
 theorem C17_restore (d : Dec ε σ) (caps : Vt.Caps) (saved : τ) (st : St ε σ) (env : DEnv) :
     (let r := dispose d (epilogue caps) saved st env
-     (r.res = .blocked ∨ ∃ calls : List Sys, r.log = calls.map .poll ++ [.sigClose, .tcsetattr saved]) ∧
+     (r.res = .blocked ∨ ∃ calls : List Sys, r.log = .sigOff :: calls.map .poll ++ [.sigClose, .tcsetattr saved]) ∧
      (∀ t, DSys.tcsetattr t ∈ r.log → t = saved) ∧
      (r.res ≠ .blocked → (∀ a ∈ env.exec, a = .ok) → flat r.st.wq = [] →
-        ∃ calls pre post, r.log = calls.map .poll ++ [.sigClose, .tcsetattr saved] ∧
+        ∃ calls pre post, r.log = .sigOff :: calls.map .poll ++ [.sigClose, .tcsetattr saved] ∧
           handed calls = pre ++ (epilogue caps).flatten ++ post ∧ pre = flat st.wq.clearButLast)) ∧
     (∀ (makeRaw : τ → τ) (oenv : OpenEnv τ) (s : τ) (log : List (OSys τ)),
         openTty makeRaw oenv = (some s, log) →
@@ -109,7 +110,7 @@ example :
     let r := dispose simpleDec (epilogue ⟨.eightBit, false⟩) "cooked" ⟨WQ.new, [], [], false⟩
       ⟨[], [⟨0, [⟨1, .ready false false false true, .n 99, [], true, .again, .again⟩,
                  ⟨2, .ready false false true true, .n 0, [], true, .again, .bytes [27, 91, 63, 54, 50, 59, 52, 99]⟩]⟩], true⟩
-    r.res = .ok ∧ r.log.length = 7 ∧ r.log.getLast? = some (.tcsetattr "cooked") ∧ flat r.st.wq = [] := by
+    r.res = .ok ∧ r.log.length = 8 ∧ r.log.getLast? = some (.tcsetattr "cooked") ∧ flat r.st.wq = [] := by
   decide +kernel
 
 /-! ## C17_wake_count, C17_wake_not_lost_partial
